@@ -346,9 +346,7 @@ def r186(ctx, rep):
     f = ctx.func(f"{TR}.set_best_index")
     loops = [n for n in ast.walk(f.node) if isinstance(n, ast.For)]
     if len(loops) != 1:
-        rep.bad("R18.6", "scan loop")
-        rep.finding("R18.6", f, f"{len(loops)} loops", f.node.lineno, "set_best_index must scan the interpolation points in one loop")
-        return
+        raise AnalysisError(f"set_best_index: {len(loops)} loops (one scan loop expected)")
     lp = loops[0]
     it = lp.iter
     if _short(it) == "range" and len(it.args) == 1 and mentions(it.args[0], "npt"):
@@ -357,45 +355,62 @@ def r186(ctx, rep):
         rep.bad("R18.6", "scan range")
         rep.finding("R18.6", f, norm(it), lp.lineno, "the scan does not cover all interpolation points (range(npt))")
     k = lp.target.id if isinstance(lp.target, ast.Name) else "?"
+    # the variable finally stored into _best_index
+    fin = [n for n in f.body() if isinstance(n, ast.Assign) and any(isinstance(t, ast.Attribute) and t.attr == "_best_index" for t in n.targets)]
+    if not fin or not isinstance(fin[-1].value, ast.Name) or fin[-1].lineno < lp.lineno:
+        rep.bad("R18.6", "final store")
+        rep.finding("R18.6", f, "_best_index store", f.node.lineno, "the result of the scan is not stored into _best_index after the loop")
+        return
+    idx = fin[-1].value.id
+    rep.ok("R18.6", f"{f.local}: _best_index = {idx} after the scan")
     acc = None
     for node in ast.walk(lp):
-        if isinstance(node, ast.If) and any(isinstance(s, ast.Assign) and any(isinstance(t, ast.Name) and t.id == "best_index" for t in s.targets) for s in node.body):
+        if isinstance(node, ast.If) and any(isinstance(s_, ast.Assign) and any(isinstance(t, ast.Name) and t.id == idx for t in s_.targets) for s_ in node.body):
             acc = node
     if acc is None:
         rep.bad("R18.6", "acceptance test")
         rep.finding("R18.6", f, "no acceptance branch", lp.lineno, "no branch updates the best index inside the scan")
         return
+    # shape: M < MB or (M < MB + tol and R < RB)
     t = acc.test
-    good = False
+    names = None
     if isinstance(t, ast.BoolOp) and isinstance(t.op, ast.Or) and len(t.values) == 2:
         a, b = t.values
+        if isinstance(b, ast.Compare):
+            a, b = b, a
         pa = _cmp_parts(a)
-        if pa and pa[1] == "<" and norm(pa[0]) == "m_val" and norm(pa[2]) == "m_best" and isinstance(b, ast.BoolOp) and isinstance(b.op, ast.And) and len(b.values) == 2:
-            p1, p2 = _cmp_parts(b.values[0]), _cmp_parts(b.values[1])
-            if p1 and p2 and p1[1] == "<" and norm(p1[0]) == "m_val" and isinstance(p1[2], ast.BinOp) and isinstance(p1[2].op, ast.Add) and mentions(p1[2], "m_best") and mentions(p1[2], "tol") and p2[1] == "<" and norm(p2[0]) == "r_val" and norm(p2[2]) == "r_best":
-                good = True
-    if good:
-        rep.ok("R18.6", f"{f.local}:{acc.lineno} accept iff m < m_best or (m < m_best + tol and r < r_best)")
-    else:
+        if pa and pa[1] == "<" and isinstance(pa[0], ast.Name) and isinstance(pa[2], ast.Name) and isinstance(b, ast.BoolOp) and isinstance(b.op, ast.And) and len(b.values) == 2:
+            M, MB = pa[0].id, pa[2].id
+            c1, c2 = b.values
+            p1, p2 = _cmp_parts(c1), _cmp_parts(c2)
+            if p1 and p2:
+                if not (isinstance(p1[2], ast.BinOp)):
+                    p1, p2 = p2, p1
+                if p1[1] == "<" and norm(p1[0]) == M and isinstance(p1[2], ast.BinOp) and isinstance(p1[2].op, ast.Add) and MB in {norm(p1[2].left), norm(p1[2].right)} and p2[1] == "<" and isinstance(p2[0], ast.Name) and isinstance(p2[2], ast.Name):
+                    names = (M, MB, p2[0].id, p2[2].id)
+    if names is None:
         rep.bad("R18.6", "acceptance test")
-        rep.finding("R18.6", f, norm(t)[:120], acc.lineno, "the acceptance test is not `m_val < m_best or (m_val < m_best + tol and r_val < r_best)` (least merit, ties within rounding go to the smaller violation)")
+        rep.finding("R18.6", f, norm(t)[:120], acc.lineno, "the acceptance test is not `m < m_best or (m < m_best + tol and r < r_best)` (least merit, ties within rounding go to the smaller violation)")
+        return
+    M, MB, R, RB = names
+    rep.ok("R18.6", f"{f.local}:{acc.lineno} accept iff {M} < {MB} or ({M} < {MB} + tol and {R} < {RB})")
     assigned = {}
-    for s in acc.body:
-        if isinstance(s, ast.Assign) and len(s.targets) == 1 and isinstance(s.targets[0], ast.Name):
-            assigned[s.targets[0].id] = norm(s.value)
-    want = {"best_index": k, "m_best": "m_val", "r_best": "r_val"}
+    for s_ in acc.body:
+        if isinstance(s_, ast.Assign) and len(s_.targets) == 1 and isinstance(s_.targets[0], ast.Name):
+            assigned[s_.targets[0].id] = norm(s_.value)
+    want = {idx: k, MB: M, RB: R}
     if all(assigned.get(a) == b for a, b in want.items()):
-        rep.ok("R18.6", f"{f.local}: (best_index, m_best, r_best) updated together")
+        rep.ok("R18.6", f"{f.local}: ({idx}, {MB}, {RB}) updated together")
     else:
         missing = sorted(a for a, b in want.items() if assigned.get(a) != b)
         rep.bad("R18.6", "triple update")
         rep.finding("R18.6", f, f"accept body assigns {assigned}", acc.lineno, f"when a better point is accepted {missing} is not updated with it: later comparisons use stale reference values")
-    # values at index k
-    for var, fn in (("m_val", "merit"), ("r_val", "maxcv")):
-        st = [s for s in ast.walk(lp) if isinstance(s, ast.Assign) and any(isinstance(t, ast.Name) and t.id == var for t in s.targets)]
+    # the merit / violation of the scanned point are computed from its own values
+    for var, fn in ((M, "merit"), (R, "maxcv")):
+        st = [s_ for s_ in ast.walk(lp) if isinstance(s_, ast.Assign) and any(isinstance(t_, ast.Name) and t_.id == var for t_ in s_.targets)]
         ok = bool(st)
-        for s in st:
-            v = s.value
+        for s_ in st:
+            v = s_.value
             if not (isinstance(v, ast.Call) and isinstance(v.func, ast.Attribute) and v.func.attr == fn):
                 ok = False
                 continue
@@ -407,16 +422,10 @@ def r186(ctx, rep):
             if idxs != {k}:
                 ok = False
         if ok:
-            rep.ok("R18.6", f"{f.local}: {var} computed from the values of point {k}")
+            rep.ok("R18.6", f"{f.local}: {var} computed by {fn} from the values of point {k}")
         else:
             rep.bad("R18.6", f"{var} index")
-            rep.finding("R18.6", f, f"{var}", lp.lineno, f"`{var}` of the scanned point is not computed from the values recorded for that point")
-    fin = [n for n in f.body() if isinstance(n, ast.Assign) and any(isinstance(t, ast.Attribute) and t.attr == "_best_index" for t in n.targets)]
-    if fin and isinstance(fin[-1].value, ast.Name) and fin[-1].value.id == "best_index" and fin[-1].lineno > lp.lineno:
-        rep.ok("R18.6", f"{f.local}: _best_index = best_index after the scan")
-    else:
-        rep.bad("R18.6", "final store")
-        rep.finding("R18.6", f, "_best_index store", f.node.lineno, "the result of the scan is not stored into _best_index after the loop")
+            rep.finding("R18.6", f, f"{var}", lp.lineno, f"`{var}` of the scanned point is not computed (by {fn}) from the values recorded for that point")
 
 
 def r187(ctx, rep):
